@@ -13,9 +13,9 @@ use std::{cell::RefCell, rc::Rc};
 use slotmap::KeyData;
 
 use crate::{
-    ast::{Expr, Literal, RecordField},
+    ast::{Expr, Literal, MatchArm, RecordField},
     integer,
-    interner::{ExprNodeId, Symbol, ToSymbol, TypeKey, TypeNodeId},
+    interner::{ExprKey, ExprNodeId, Symbol, ToSymbol, TypeKey, TypeNodeId},
     numeric,
     pattern::{Pattern, TypedId, TypedPattern},
     plugin::{ExtClsInfo, ExtFunTypeInfo},
@@ -643,6 +643,42 @@ fn code_if(machine: &mut Machine) -> ReturnCode {
     1
 }
 
+/// `code_match(scrutinee: Code(a), template: int, bodies: [Code(b)]) -> Code(b)`
+///
+/// `template` is the interner id of the quoted match expression: its patterns
+/// are reused as they are, its scrutinee and arm bodies are replaced by the
+/// code values built at the macro stage.
+fn code_match(machine: &mut Machine) -> ReturnCode {
+    let scrutinee_raw = machine.get_stack(0);
+    let template_raw = Machine::get_as::<i64>(machine.get_stack(1)) as u64;
+    let bodies_raw = machine.get_stack(2);
+
+    let scrutinee = machine.get_code(scrutinee_raw);
+    let template = ExprNodeId(ExprKey::from(KeyData::from_ffi(template_raw)));
+    let bodies_data = machine.arrays.get_array(bodies_raw).get_data().to_vec();
+    let Expr::Match(_, template_arms) = template.to_expr() else {
+        panic!("code_match: the template is not a match expression");
+    };
+    assert_eq!(
+        template_arms.len(),
+        bodies_data.len(),
+        "code_match: one body per arm expected"
+    );
+    let arms: Vec<MatchArm> = template_arms
+        .into_iter()
+        .zip(bodies_data)
+        .map(|(arm, body_raw)| MatchArm {
+            pattern: arm.pattern,
+            body: machine.get_code(body_raw),
+        })
+        .collect();
+
+    let expr = expr_to_id(Expr::Match(scrutinee, arms));
+    let code_val = machine.alloc_code(expr);
+    machine.set_stack(0, code_val);
+    1
+}
+
 /// `code_tuple(elems: [Code(...)]) -> Code(tuple)`
 fn code_tuple(machine: &mut Machine) -> ReturnCode {
     let arr_raw = machine.get_stack(0);
@@ -1073,6 +1109,7 @@ pub fn codegen_combinator_signatures() -> Vec<ExtClsInfo> {
             fty(vec![s, i, f, f], f),
         ),
         mk_cls("code_if", code_if, fty(vec![f, f, f], f)),
+        mk_cls("code_match", code_match, fty(vec![f, i, af], f)),
         mk_cls("code_tuple", code_tuple, fty(vec![af], f)),
         mk_cls("code_proj", code_proj, fty(vec![f, i], f)),
         mk_cls("code_array", code_array, fty(vec![af], f)),
